@@ -6132,6 +6132,7 @@ impl<'a> Parser<'a> {
             } else if let Some(option) = self.parse_optional_column_option()? {
                 options.push(ColumnOptionDef { name: None, option });
             } else if dialect_of!(self is MySqlDialect | GenericDialect)
+                && collation.is_none()
                 && self.parse_keyword(Keyword::COLLATE)
             {
                 collation = Some(self.parse_object_name(false)?);
@@ -6249,36 +6250,36 @@ impl<'a> Parser<'a> {
             let expr = self.parse_expr()?;
             self.expect_token(&Token::RParen)?;
             Ok(Some(ColumnOption::Check(expr)))
-        } else if self.parse_keyword(Keyword::AUTO_INCREMENT)
-            && dialect_of!(self is MySqlDialect | GenericDialect)
+        } else if dialect_of!(self is MySqlDialect | GenericDialect)
+            && self.parse_keyword(Keyword::AUTO_INCREMENT)
         {
             // Support AUTO_INCREMENT for MySQL
             Ok(Some(ColumnOption::DialectSpecific(vec![
                 Token::make_keyword("AUTO_INCREMENT"),
             ])))
-        } else if self.parse_keyword(Keyword::AUTOINCREMENT)
-            && dialect_of!(self is SQLiteDialect |  GenericDialect)
+        } else if dialect_of!(self is SQLiteDialect |  GenericDialect)
+            && self.parse_keyword(Keyword::AUTOINCREMENT)
         {
             // Support AUTOINCREMENT for SQLite
             Ok(Some(ColumnOption::DialectSpecific(vec![
                 Token::make_keyword("AUTOINCREMENT"),
             ])))
-        } else if self.parse_keyword(Keyword::ASC)
-            && self.dialect.supports_asc_desc_in_column_definition()
+        } else if self.dialect.supports_asc_desc_in_column_definition()
+            && self.parse_keyword(Keyword::ASC)
         {
             // Support ASC for SQLite
             Ok(Some(ColumnOption::DialectSpecific(vec![
                 Token::make_keyword("ASC"),
             ])))
-        } else if self.parse_keyword(Keyword::DESC)
-            && self.dialect.supports_asc_desc_in_column_definition()
+        } else if self.dialect.supports_asc_desc_in_column_definition()
+            && self.parse_keyword(Keyword::DESC)
         {
             // Support DESC for SQLite
             Ok(Some(ColumnOption::DialectSpecific(vec![
                 Token::make_keyword("DESC"),
             ])))
-        } else if self.parse_keywords(&[Keyword::ON, Keyword::UPDATE])
-            && dialect_of!(self is MySqlDialect | GenericDialect)
+        } else if dialect_of!(self is MySqlDialect | GenericDialect)
+            && self.parse_keywords(&[Keyword::ON, Keyword::UPDATE])
         {
             let expr = self.parse_expr()?;
             Ok(Some(ColumnOption::OnUpdate(expr)))
@@ -6291,12 +6292,12 @@ impl<'a> Parser<'a> {
             Ok(Some(ColumnOption::Options(
                 self.parse_options(Keyword::OPTIONS)?,
             )))
-        } else if self.parse_keyword(Keyword::AS)
-            && dialect_of!(self is MySqlDialect | SQLiteDialect | DuckDbDialect | GenericDialect)
+        } else if dialect_of!(self is MySqlDialect | SQLiteDialect | DuckDbDialect | GenericDialect)
+            && self.parse_keyword(Keyword::AS)
         {
             self.parse_optional_column_option_as()
-        } else if self.parse_keyword(Keyword::IDENTITY)
-            && dialect_of!(self is MsSqlDialect | GenericDialect)
+        } else if dialect_of!(self is MsSqlDialect | GenericDialect)
+            && self.parse_keyword(Keyword::IDENTITY)
         {
             let property = if self.consume_token(&Token::LParen) {
                 let seed = self.parse_number()?;
@@ -6361,35 +6362,35 @@ impl<'a> Parser<'a> {
                 generated_keyword: true,
             }))
         } else if self.parse_keywords(&[Keyword::ALWAYS, Keyword::AS]) {
-            if self.expect_token(&Token::LParen).is_ok() {
-                let expr = self.parse_expr()?;
-                self.expect_token(&Token::RParen)?;
-                let (gen_as, expr_mode) = if self.parse_keywords(&[Keyword::STORED]) {
-                    Ok((
-                        GeneratedAs::ExpStored,
-                        Some(GeneratedExpressionMode::Stored),
-                    ))
-                } else if dialect_of!(self is PostgreSqlDialect) {
-                    // Postgres' AS IDENTITY branches are above, this one needs STORED
-                    self.expected("STORED", self.peek_token())
-                } else if self.parse_keywords(&[Keyword::VIRTUAL]) {
-                    Ok((GeneratedAs::Always, Some(GeneratedExpressionMode::Virtual)))
-                } else {
-                    Ok((GeneratedAs::Always, None))
-                }?;
-
-                Ok(Some(ColumnOption::Generated {
-                    generated_as: gen_as,
-                    sequence_options: None,
-                    generation_expr: Some(expr),
-                    generation_expr_mode: expr_mode,
-                    generated_keyword: true,
-                }))
+            self.expect_token(&Token::LParen)?;
+            let expr = self.parse_expr()?;
+            self.expect_token(&Token::RParen)?;
+            let (gen_as, expr_mode) = if self.parse_keywords(&[Keyword::STORED]) {
+                Ok((
+                    GeneratedAs::ExpStored,
+                    Some(GeneratedExpressionMode::Stored),
+                ))
+            } else if dialect_of!(self is PostgreSqlDialect) {
+                // Postgres' AS IDENTITY branches are above, this one needs STORED
+                self.expected("STORED", self.peek_token())
+            } else if self.parse_keywords(&[Keyword::VIRTUAL]) {
+                Ok((GeneratedAs::Always, Some(GeneratedExpressionMode::Virtual)))
             } else {
-                Ok(None)
-            }
+                Ok((GeneratedAs::Always, None))
+            }?;
+
+            Ok(Some(ColumnOption::Generated {
+                generated_as: gen_as,
+                sequence_options: None,
+                generation_expr: Some(expr),
+                generation_expr_mode: expr_mode,
+                generated_keyword: true,
+            }))
         } else {
-            Ok(None)
+            self.expected(
+                "ALWAYS AS or BY DEFAULT AS IDENTITY after GENERATED",
+                self.peek_token(),
+            )
         }
     }
 
